@@ -81,6 +81,8 @@ func (vc *FnVC) exprText(v ssa.Value) string {
 }
 
 func (vc *FnVC) instr(ins ssa.Instruction) {
+	vc.curIns = ins
+	vc.releaseAt(ins)
 	if p := ins.Pos(); p.IsValid() {
 		vc.curPos = p
 	}
@@ -267,7 +269,18 @@ func (vc *FnVC) doAlloc(x *ssa.Alloc) {
 					}
 				}
 			} else {
-				vc.freshObjs = append(vc.freshObjs, freshObj{r, et, x.Block()})
+				sites, rets := vc.eng.escapeSites(x)
+				vc.freshObjs = append(vc.freshObjs, freshObj{r, et, x.Block(), sites, rets})
+			}
+		}
+		if x.Heap && vc.scratch == 0 {
+			sites, rets := vc.eng.escapeSites(x)
+			vc.objInfo[r] = &freshObj{r, et, x.Block(), sites, rets}
+			if kept := vc.eng.keptFields(x); len(kept) > 0 {
+				for _, i := range kept {
+					key, _, _ := vc.fieldKey(et, i)
+					vc.ownedFields = append(vc.ownedFields, stableBox{key, r})
+				}
 			}
 		}
 		vc.addrs[x] = &Addr{kind: aObj, ref: r, stT: et, T: et}
